@@ -227,6 +227,25 @@ def oracle(case, ctx):
         ("are_columns_nested(mixed)", sut(lambda: [bool(v) for v in dp.are_columns_nested(mixed)]), [True] * c + [False]),
         ("are_columns_nested(flat)", sut(lambda: [bool(v) for v in dp.are_columns_nested(flat)]), [False] * t),
     ]
+    if n >= 2:
+        # series-valued cells anywhere: a primitive placeholder in the first / last row of one
+        # column or of every column does not make the frame (or that column) flat
+        first_one = build_nested(A, names, "series", inst)
+        first_one.iloc[0, 0] = np.nan
+        first_all = build_nested(A, names, case.get("pred_cells", "series"), inst)
+        for j in range(c):
+            first_all.iloc[0, j] = np.nan
+        last_all = build_nested(A, names, "series", inst)
+        for j in range(c):
+            last_all.iloc[n - 1, j] = 0.0
+        checks += [
+            ("is_nested(primitive in first row of one column)", sut(dp.is_nested_dataframe, first_one), True),
+            ("are_columns_nested(primitive in first row of one column)", sut(lambda: [bool(v) for v in dp.are_columns_nested(first_one)]), [True] * c),
+            ("is_nested(primitive first row)", sut(dp.is_nested_dataframe, first_all), True),
+            ("are_columns_nested(primitive first row)", sut(lambda: [bool(v) for v in dp.are_columns_nested(first_all)]), [True] * c),
+            ("is_nested(primitive last row)", sut(dp.is_nested_dataframe, last_all), True),
+            ("are_columns_nested(primitive last row)", sut(lambda: [bool(v) for v in dp.are_columns_nested(last_all)]), [True] * c),
+        ]
     for what, got, want in checks:
         if isinstance(got, Raised) or got != want:
             discs.append(D("nestedness_predicate", "%s -> %r expected %r" % (what, got, want)))
